@@ -1,33 +1,36 @@
 //go:build verif
 
-// Contracts for functions outside the repository.  These are TRUSTED (not verified): each is
-// listed in the evidence file's trusted_base.  Comment-only file; it contributes no code.
+// Contracts for functions outside the repository.  `extern` contracts are TRUSTED (not verified): each is
+// listed in the evidence file's trusted_base.  `func` contracts in this file are VERIFIED against the source of the
+// Go standard library the analyser loads (encoding/binary's big-endian codecs, bytes.Equal, net.IPv4, net.CIDRMask,
+// net.IP.To16, hex.DecodedLen, errors.New): their obligations belong to every check that calls them.
+// Comment-only file; it contributes no code.
 
 package dns
 
-//@ extern (encoding/binary.bigEndian).Uint16
+//@ func (encoding/binary.bigEndian).Uint16
 //@   requires len(b) >= 2
 //@   ensures ret0 == b[0]*256 + b[1]
 //@   pure
-//@ extern (encoding/binary.bigEndian).Uint32
+//@ func (encoding/binary.bigEndian).Uint32
 //@   requires len(b) >= 4
 //@   ensures ret0 == b[0]*16777216 + b[1]*65536 + b[2]*256 + b[3]
 //@   pure
-//@ extern (encoding/binary.bigEndian).Uint64
+//@ func (encoding/binary.bigEndian).Uint64
 //@   requires len(b) >= 8
 //@   ensures ret0 == b[0]*72057594037927936 + b[1]*281474976710656 + b[2]*1099511627776 + b[3]*4294967296 + b[4]*16777216 + b[5]*65536 + b[6]*256 + b[7]
 //@   pure
-//@ extern (encoding/binary.bigEndian).PutUint16
+//@ func (encoding/binary.bigEndian).PutUint16
 //@   requires len(b) >= 2
 //@   ensures b[0] == v / 256 && b[1] == v % 256
 //@   ensures onlywrites(b, 0, 2)
 //@   writes b
-//@ extern (encoding/binary.bigEndian).PutUint32
+//@ func (encoding/binary.bigEndian).PutUint32
 //@   requires len(b) >= 4
 //@   ensures b[0] == v / 16777216 && b[1] == (v / 65536) % 256 && b[2] == (v / 256) % 256 && b[3] == v % 256
 //@   ensures onlywrites(b, 0, 4)
 //@   writes b
-//@ extern (encoding/binary.bigEndian).PutUint64
+//@ func (encoding/binary.bigEndian).PutUint64
 //@   requires len(b) >= 8
 //@   ensures b[0] == v / 72057594037927936 && b[1] == (v / 281474976710656) % 256 && b[2] == (v / 1099511627776) % 256 && b[3] == (v / 4294967296) % 256 && b[4] == (v / 16777216) % 256 && b[5] == (v / 65536) % 256 && b[6] == (v / 256) % 256 && b[7] == v % 256
 //@   ensures onlywrites(b, 0, 8)
@@ -36,7 +39,7 @@ package dns
 //@ extern fmt.Errorf
 //@   ensures ret0 != nil
 //@   pure
-//@ extern errors.New
+//@ func errors.New
 //@   ensures ret0 != nil
 //@   pure
 
@@ -95,7 +98,7 @@ package dns
 //@   writes dst
 //@ extern (*encoding/base32.Encoding).EncodeToString
 //@   pure
-//@ extern encoding/hex.DecodedLen
+//@ func encoding/hex.DecodedLen
 //@   ensures x >= 0 ==> ret0 == x / 2
 //@   pure
 //@ extern encoding/hex.EncodeToString
@@ -106,7 +109,7 @@ package dns
 //@   fresh
 
 // net: only length facts.
-//@ extern net.CIDRMask
+//@ func net.CIDRMask
 //@   ensures 0 <= ones && ones <= bits && (bits == 32 || bits == 128) ==> len(ret0) == bits / 8
 //@   pure
 //@   fresh
@@ -119,11 +122,11 @@ package dns
 //@   ensures four: len(ip) == 4 ==> ret0 != nil && sliceoff(ret0) == sliceoff(ip)
 //@   ensures ret0 == nil || ref(ret0) == ref(ip)
 //@   pure
-//@ extern (net.IP).To16
+//@ func (net.IP).To16
 //@   ensures ret0 == nil || len(ret0) == 16
 //@   ensures ret0 == nil || ref(ret0) == ref(ip) || fresh(ret0)
 //@   pure
-//@ extern net.IPv4
+//@ func net.IPv4
 //@   ensures len(ret0) == 16
 //@   pure
 //@   fresh
@@ -226,7 +229,7 @@ package dns
 //@   pure
 //@ extern strings.Join
 //@   pure
-//@ extern bytes.Equal
+//@ func bytes.Equal
 //@   ensures ret0 == (len(a) == len(b) && (forall k in 0..len(a) :: a[k] == b[k]))
 //@   pure
 //@ extern bytes.Compare
